@@ -280,11 +280,11 @@ def used_templates(top_insts):
 def random_designs(tier, seed):
     rng = random.Random(seed)
     ents = []
-    n = 8 if tier == "quick" else 12
+    n = 8
     for idx in range(n):
         with_slices = idx % 4 == 3
         while True:
-            S, levels, top_insts = random_tree(rng, idx, 1 + idx % 2 if tier == "quick" else 1 + idx % 3, with_slices)
+            S, levels, top_insts = random_tree(rng, idx, 1 + idx % 2, with_slices)
             out = {"conc": [], "seq": [], "nets": [], "registered": set()}
             for i, (t, conn) in enumerate(top_insts):
                 def res(n):
@@ -314,7 +314,7 @@ def random_designs(tier, seed):
         io = lambda t: ([["clk", "in", "std_logic", -1]] if t.seq else []) + [["a", "in", "unsigned", 2], ["b", "in", "unsigned", 2], ["s", "out", "unsigned", 2]]
         e["ifaces"] = {t.name.lower(): io(t) for t in tmpls}
         # the elaborated hierarchy is expensive to interpret (one clock settles every port association): breadth-first prefix
-        e["budget"] = {"quick": 130, "thorough": 150}
+        e["budget"] = {"quick": 130, "thorough": 130}
         ents.append(e)
     return ents
 
